@@ -871,3 +871,181 @@ def correspond(ck, model, module, cases, impl_traces, label, nontrivial=None, de
 def vlib_abort():
     import vlib
     return vlib.CheckAbort
+
+
+# ------------------------------------------------------------------ implementation-side only: the application restarts the
+# consumer from a CALLBACK of the start Deferred (no model counterpart: application callbacks that re-enter the consumer
+# are outside Model/Consumer.v).  stop() - the application's, the one made inside the processor, the one at the end of a
+# shutdown - fires the start Deferred with last_processed_offset; a callback (addCallback / addBoth) registered by the
+# application calls consumer.start(next_offset) at that very moment, i.e. while stop() is still on the stack.
+class RestartCbDriver(Driver):
+    RESTART_OFF = 500
+
+    def __init__(self, cfg, mode="cb", fail_first=False, budget=1, **kw):
+        self.mode = mode                  # "cb": addCallback, "both": addBoth
+        self.fail_first = fail_first      # the nested start's first request is answered by an already-failed Deferred
+        self.budget = budget
+        self.fail_next_req = False
+        self.restart_log = []             # (step_no, "succ"/"fail" trigger, "ret"/"raised", code, offset, new start Deferred)
+        Driver.__init__(self, cfg, **kw)
+
+    def new_req(self, kind):
+        d = Driver.new_req(self, kind)
+        if self.fail_next_req:
+            self.fail_next_req = False
+            d.errback(env_failure(FK_KAFKA, self.step_no))     # the client returned a Deferred that has already failed
+        return d
+
+    def watch(self, d, tag, *ids):
+        if tag == OUT_START_D:
+            from twisted.python.failure import Failure
+
+            def restart(r):
+                if self.budget <= 0:
+                    return r
+                self.budget -= 1
+                trig = "fail" if isinstance(r, Failure) else "succ"
+                off = self.RESTART_OFF + len(self.restart_log)
+                self.fail_next_req = bool(self.fail_first)
+                try:
+                    d2 = self.consumer.start(off)
+                except Exception as e:
+                    self.fail_next_req = False
+                    self.restart_log.append((self.step_no, trig, "raised", fk_of(e), off, None))
+                    return r
+                self.fail_next_req = False
+                self.restarted_in_step = self.step_no
+                self.restart_log.append((self.step_no, trig, "ret", 0, off, d2))
+                self.watch(d2, OUT_START_D)
+                return r
+            if self.mode == "cb":
+                d.addCallback(restart)
+            else:
+                d.addBoth(restart)
+        Driver.watch(self, d, tag, *ids)
+
+    def step(self, ev):
+        Driver.step(self, ev)
+        if getattr(self, "restarted_in_step", None) == self.step_no:
+            self._running = True
+
+
+def run_restart_cb(cfg, events, mode, fail_first, drain=8):
+    """drive `events`, then let the new life run: fire the retry timer / answer the offset request / answer the fetch with
+    one message at the offset asked for.  -> (driver, observations after each step, the events actually applied)"""
+    quiet()
+    drv = RestartCbDriver(cfg, mode=mode, fail_first=fail_first)
+    obs, applied = [], []
+    for ev in events:
+        drv.step(ev)
+        applied.append(ev)
+        obs.append(drv.observe())
+    if any(how == "ret" for (_, _, how, _, _, _) in drv.restart_log):
+        for _ in range(drain):
+            if drv.timers(T_RETRY):
+                ev = (EV_FIRE_RETRY,)
+            elif drv.req_pending() and drv.req[0] in (R_OFFREQ, R_OFFFETCH):
+                ev = (EV_REQ_OK, 7)
+            elif drv.req_pending():
+                last = [a for (_, what, a) in drv.sent if what == "fetch"]
+                ev = (EV_FETCH_OK, [last[-1][0]], 0)
+            else:
+                break
+            drv.step(ev)
+            applied.append(ev)
+            obs.append(drv.observe())
+            if drv.delivered and drv.delivered[-1] >= RestartCbDriver.RESTART_OFF:
+                break
+    return drv, obs, applied
+
+
+def monitor_restart_cb(drv, obs, events):
+    """events: the scripted events (what follows them in obs is the drain phase)"""
+    bad = []
+    for (step, trig, how, code, off, d2) in drv.restart_log:
+        i = step - 1
+        if trig != "succ":
+            continue                       # the start Deferred FAILED: the consumer is still started, RestartError is right
+        if how == "raised":
+            bad.append(("C13_restartable", i, "start(%d) called from a callback of the start Deferred at the moment stop() "
+                        "reported the consumer stopped raised %d (%s)" % (off, code, "RestartError" if code == X_RESTART else "other")))
+            continue
+        ob = obs[i]
+        if not d2.called and not ob["req_pending"] and T_RETRY not in ob["timers"]:
+            steps, _ = split_steps(drv.trace)
+            if any(o[0] == OUT_SHUTDOWN_D for o in steps[i]):
+                # candidate finding F-C13-7 (reported, not repaired): the stop() that fired the start Deferred was the one at
+                # the end of shutdown(); _shuttingdown is still set while the callback runs, so the retry after the
+                # immediately-failed first request of the nested start() is dropped.  Counted, not a violation.
+                drv.candidates = getattr(drv, "candidates", 0) + 1
+                continue
+            bad.append(("C14_retry_fires", i, "the consumer restarted from the start Deferred's callback (start(%d) accepted, its "
+                        "start Deferred pending) has no request outstanding and no retry timer: it never retries and never fails: %r" % (off, ob)))
+        later_stop = any(s > step for (s, _, _, _, _, _) in drv.restart_log) or \
+            any(e[0] in (EV_STOP, EV_SHUTDOWN) or (e[0] == EV_PLAN and e[1] in (1, 3)) for e in events[step:]) or bool(drv.plan)
+        if not d2.called and not later_stop and (ob["req_pending"] or T_RETRY in ob["timers"]) and off not in drv.delivered:
+            bad.append(("C13_restartable", len(obs) - 1, "the consumer restarted from the start Deferred's callback at %d did not deliver "
+                        "the message at %d (delivered %r, left running %r)" % (off, off, drv.delivered[-3:], obs[-1])))
+    return bad
+
+
+RESTART_PRES = [
+    ("fetching", dict(group=0), [(EV_START, 0)]),
+    ("processing", dict(group=1, acn=2), [(EV_START, 0), (EV_FETCH_OK, [0, 1, 2], 0)]),
+    ("waiting-to-retry", dict(group=0), [(EV_START, 0), (EV_REQ_FAIL, FK_KAFKA)]),
+    ("auto-commit-in-flight", dict(group=1, acn=1), [(EV_START, 0), (EV_PLAN, 0, 0), (EV_FETCH_OK, [0, 1], 0)]),
+    ("reply-parked", dict(group=1, acn=1), [(EV_START, 0), (EV_FETCH_OK, [0, 1], 0), (EV_FIRE_RETRY,), (EV_FETCH_OK, [2, 3], 0)]),
+]
+RESTART_STOPPERS = [[(EV_STOP,)], [(EV_PLAN, 1, 0), (EV_FETCH_OK, "next", 0)], [(EV_SHUTDOWN,), (EV_PROC_FIRE, 1), (EV_COMMIT_OK,), (EV_COMMIT_OK,)]]
+
+
+def restart_cb_family(ck, rnd, pres, reps, replay_tag="restartcb"):
+    """every state class, then something that makes stop() fire the start Deferred, with the restarting callback attached;
+    -> (runs, restarts made, failing)"""
+    runs = restarts = failing = 0
+    ck.cov.setdefault("restart_cb_candidate_F_C13_7", 0)
+    for _ in range(reps):
+        for name, kw, pre in pres:
+            for stopper in RESTART_STOPPERS:
+                for mode in ("cb", "both"):
+                    for fail_first in (False, True):
+                        cfg = Cfg(**dict(dict(maxatt=rnd.choice([0, 3]), buf=4096, maxbuf=4096), **{k: v for k, v in kw.items() if k != "maxatt"}))
+                        quiet()
+                        d0 = Driver(cfg)
+                        evs = []
+                        for ev in list(pre) + list(stopper):
+                            if ev[0] == EV_FETCH_OK and ev[1] == "next":
+                                if not d0.enabled((EV_FETCH_OK, [0], 0)):
+                                    continue
+                                last = [a for (_, what, a) in d0.sent if what == "fetch"]
+                                ev = (EV_FETCH_OK, [last[-1][0]], ev[2])
+                            if not d0.enabled(ev):
+                                continue
+                            evs.append(ev)
+                            d0.step(ev)
+                        drv, obs, applied = run_restart_cb(cfg, evs, mode, fail_first)
+                        runs += 1
+                        restarts += len(drv.restart_log)
+                        ck.hist("restart_from_start_callback:%s:%s" % (mode, "failed-first-request" if fail_first else "plain"), len(drv.restart_log))
+                        bad = monitor_restart_cb(drv, obs, evs)
+                        ck.cov["restart_cb_candidate_F_C13_7"] += getattr(drv, "candidates", 0)
+                        if bad:
+                            failing += 1
+                            if failing <= 2:
+                                ck.violation({"kind": "monitor failed on the implementation's trace (start() from a callback of the start Deferred fired by stop())",
+                                              "theorem": bad[0][0], "step": bad[0][1], "what": bad[0][2], "all": [list(b) for b in bad[:4]],
+                                              "state_class": name, "mode": mode, "fail_first": fail_first, "cfg": cfg.line(),
+                                              "events": [list(e) for e in evs], "impl_trace": drv.trace, "replay_op": replay_tag})
+    return runs, restarts, failing
+
+
+def replay_restart_cb(rp):
+    cfg = Cfg.from_line(rp["cfg"])
+    events = [tuple(e) for e in rp["events"]]
+    drv, obs, applied = run_restart_cb(cfg, events, rp["mode"], rp["fail_first"])
+    print_case(cfg, applied, drv.trace)
+    print("restart log:", [(s, t, h, c, o) for (s, t, h, c, o, _) in drv.restart_log])
+    print("left running after each step:", obs)
+    bad = monitor_restart_cb(drv, obs, events)
+    print("monitor verdict:", bad if bad else "passes")
+    return 1 if bad else 0
